@@ -33,6 +33,8 @@ type trackSpec struct {
 	spc       []int // samples-per-chunk pattern (cycled), every entry >= 1
 	co64      bool
 	sdtp      []byte // optional: one raw sdtp entry per sample
+	elst      bool   // an edit list in the trak (the segmenter works on media time and ignores it)
+	uniform   bool   // stsz with sample_size != 0 and no table (only when all sizes are equal)
 }
 
 // flat is the property-level view of one sample: what must be conserved.
@@ -250,8 +252,23 @@ func buildProgressive(tracks []trackSpec, mdatFirst bool) ([]byte, error) {
 		}
 		// stsz
 		stbl.Stsz.SampleNumber = uint32(len(ts.samples))
+		allEq := len(ts.samples) > 0
 		for _, s := range ts.samples {
-			stbl.Stsz.SampleSize = append(stbl.Stsz.SampleSize, s.size)
+			if s.size != ts.samples[0].size || s.size == 0 {
+				allEq = false
+			}
+		}
+		if ts.uniform && allEq {
+			stbl.Stsz.SampleUniformSize = ts.samples[0].size
+		} else {
+			for _, s := range ts.samples {
+				stbl.Stsz.SampleSize = append(stbl.Stsz.SampleSize, s.size)
+			}
+		}
+		if ts.elst {
+			edts := &mp4.EdtsBox{}
+			edts.AddChild(&mp4.ElstBox{Entries: []mp4.ElstEntry{{SegmentDuration: total * 1000 / uint64(ts.timescale+1), MediaTime: int64(ts.samples[0].cto), MediaRateInteger: 1}}})
+			trak.AddChild(edts)
 		}
 		// stsc
 		prev := -1
